@@ -720,6 +720,8 @@ Lemma eval_range a b r x y : eval a r = VInt x -> eval b r = VInt y ->
 Proof. intros Ha Hb. cbn [eval]. rewrite Ha, Hb. reflexivity. Qed.
 Lemma eval_add_Q_int_l a b r z q : eval a r = VInt z -> eval b r = VQ q -> eval (EAdd a b) r = VQ (Qred (inject_Z z + q)).
 Proof. intros Ha Hb. cbn [eval]. rewrite Ha, Hb. reflexivity. Qed.
+Lemma eval_mul_int_Q a b r z q : eval a r = VInt z -> eval b r = VQ q -> eval (EMul a b) r = VQ (Qred (inject_Z z * q)).
+Proof. intros Ha Hb. cbn [eval]. rewrite Ha, Hb. reflexivity. Qed.
 Lemma eval_call0 f r : eval (ECall f []) r = prim f []. Proof. reflexivity. Qed.
 Lemma eval_call1 f a r v : eval a r = v -> is_bad v = false -> eval (ECall f [a]) r = prim f [v].
 Proof. intros <- H. cbn [eval]. destruct (eval a r); try discriminate H; reflexivity. Qed.
@@ -939,6 +941,7 @@ Arguments exec_seq {prim wfuel}.
 Arguments exec_if {prim wfuel}.
 Arguments eval_var {prim}.
 Arguments eval_call0 {prim}.
+Arguments eval_mul_int_Q {prim}.
 Arguments eval_add_Q_int_l {prim}.
 Arguments eval_mul_rep {prim}.
 Arguments eval_mul_int {prim}.
